@@ -22,8 +22,11 @@ fn set(i: usize, v: usize) {
 fn get(i: usize) -> usize {
     F[i].load(SeqCst)
 }
+fn flag_eq(i: usize, v: usize) -> bool {
+    get(i) == v
+}
 fn wait(i: usize, v: usize) {
-    if !sched::block_until(|| get(i) == v) {
+    if !sched::block_on(flag_eq, i, v) {
         // the choreography did not materialise (e.g. a stall never fired); carry on
         NOT_MATERIALISED.fetch_add(1, SeqCst);
     }
@@ -155,21 +158,40 @@ fn until_f2() -> bool {
     get(2) == 2
 }
 
-pub fn d5(residue: usize, age: usize) -> bool {
+/// variant: bit 0 = the child gets a stamp (non-final decrement) in the epoch in which the parent
+/// is released; bit 1 = two links from the parent to the child; bit 2 = diamond (two paths).
+pub fn d5(residue: usize, age: usize, variant: usize) -> bool {
     reset(residue, 0);
     let (p, _pid) = new_node(3);
     let (x, xid) = new_node(3);
     let sh = Arc::new(Sh { roots: vec![AtomicRc::null()], wroots: vec![AtomicWeak::null()] });
+    let extra = if variant & 1 != 0 { Some(x.clone()) } else { None };
     {
         let g = circ::cs();
         sh.wroots[0].store(x.downgrade(), SeqCst, &g);
-        p.as_ref().unwrap().next[0].store(x, SeqCst, &g);
+        if variant & 4 != 0 {
+            let (a, _) = new_node(3);
+            let (b, _) = new_node(3);
+            a.as_ref().unwrap().next[0].store(x.clone(), SeqCst, &g);
+            b.as_ref().unwrap().next[1].store(x, SeqCst, &g);
+            p.as_ref().unwrap().next[0].store(a, SeqCst, &g);
+            p.as_ref().unwrap().next[1].store(b, SeqCst, &g);
+        } else {
+            if variant & 2 != 0 {
+                p.as_ref().unwrap().next[1].store(x.clone(), SeqCst, &g);
+            }
+            p.as_ref().unwrap().next[0].store(x, SeqCst, &g);
+        }
         sh.roots[0].store(p, SeqCst, &g);
     }
     churn(age);
     let stalls = vec![stall(0, S::COLLECT_AFTER_ADVANCE, Some(when_target), until_f2, false)];
     let s0 = sh.clone();
     let b0: Box<dyn FnOnce() + Send> = Box::new(move || {
+        if extra.is_some() {
+            mon::oplog(0, "drop(extra Rc to the child)  (stamps the child now)".into());
+        }
+        drop(extra);
         {
             let g = circ::cs();
             mon::oplog(0, "root0.store(null)  (parent's last owner)".into());
@@ -200,7 +222,7 @@ pub fn d5(residue: usize, age: usize) -> bool {
         }
         drop(g);
     });
-    let st = run("d5", J::obj().set("scenario", "d5").set("residue", residue).set("link_age", age), stalls, vec![b0, b1]);
+    let st = run("d5", J::obj().set("scenario", "d5").set("residue", residue).set("link_age", age).set("variant", variant), stalls, vec![b0, b1]);
     finish(&sh);
     st.stalls_fired.iter().any(|s| s.0 == S::COLLECT_AFTER_ADVANCE)
 }
@@ -532,10 +554,21 @@ pub fn run_all(which: &str, shard: u64, nshards: u64, thorough: bool) -> ScenOut
             }
         }
     }
+    if which == "c05" {
+        for &r in &residues {
+            for age in if thorough { vec![0, 3, 5, 8, 13] } else { vec![3, 8] } {
+                for variant in [0usize, 1, 2, 3, 4, 5] {
+                    one("d5", vec![r, age, variant], &|| d5(r, age, variant), &mut out);
+                }
+            }
+        }
+    }
     if which == "c02" || which == "all" {
         for &r in &residues {
             for age in if thorough { vec![0, 1, 3, 4, 5, 8, 11, 13, 20] } else { vec![3, 8, 13] } {
-                one("d5", vec![r, age], &|| d5(r, age), &mut out);
+                for variant in if thorough { vec![0usize, 1, 2, 3, 4, 5] } else { vec![0usize, 1, 2, 4] } {
+                    one("d5", vec![r, age, variant], &|| d5(r, age, variant), &mut out);
+                }
                 one("d6", vec![r, age], &|| d6(r, age), &mut out);
             }
             for chain in if thorough { vec![700usize, 1000] } else { vec![1000] } {
